@@ -87,12 +87,16 @@ func (d *deduplicationStrategy) eval(
 		//
 		// 4.delete outgoing references
 		// 5.delete incoming references
-		refs, err := findRefs(e, jsonKey, txn, d.lookup)
-		if err != nil {
-			return nil, err
+		// a duplicate stored in the same batch as the previous version has the same txn time and
+		// therefore shares its reference keys with that version, which stays. we must keep them
+		if e.Recorded != d.prev.Recorded {
+			refs, err := findRefs(e, jsonKey, txn, d.lookup)
+			if err != nil {
+				return nil, err
+			}
+			del = append(del, refs...)
+			d.counts["refs"] += len(refs)
 		}
-		del = append(del, refs...)
-		d.counts["refs"] += len(refs)
 	} else if e.IsDeleted == d.prev.IsDeleted {
 		// if the entity is not equal to the previous entity, we can still check for just reference duplicates
 		for k, stringOrArrayValue := range e.References {
